@@ -41,14 +41,7 @@ pub trait ChainStore: Send + Sync + Sized {
     /// Get block by block header hash
     fn get_block(&self, h: &packed::Byte32) -> Option<BlockView> {
         let header = self.get_block_header(h)?;
-        if let Some(freezer) = self.freezer()
-            && header.number() > 0
-            && header.number() < freezer.number()
-        {
-            let raw_block = freezer.retrieve(header.number()).expect("block frozen")?;
-            let raw_block = packed::BlockReader::from_compatible_slice(&raw_block)
-                .expect("checked data")
-                .to_entity();
+        if let Some(raw_block) = self.get_frozen_block(h, &header) {
             return Some(raw_block.into_view());
         }
         let body = self.get_block_body(h);
@@ -86,19 +79,65 @@ pub trait ChainStore: Send + Sync + Sized {
         }
     }
 
+    /// Get a main-chain block that has been moved into the freezer.
+    ///
+    /// Only main-chain blocks are frozen: a side block stored at a frozen height is not in the
+    /// freezer (the item at its number is the main-chain block).
+    fn get_frozen_block(
+        &self,
+        hash: &packed::Byte32,
+        header: &HeaderView,
+    ) -> Option<packed::Block> {
+        let freezer = self.freezer()?;
+        let number = header.number();
+        if number == 0 || number >= freezer.number() {
+            return None;
+        }
+        if self
+            .get_block_hash(number)
+            .is_some_and(|main_chain_hash| &main_chain_hash != hash)
+        {
+            return None;
+        }
+        let raw_block = freezer.retrieve(number).expect("block frozen")?;
+        Some(
+            packed::BlockReader::from_compatible_slice(&raw_block)
+                .expect("checked data")
+                .to_entity(),
+        )
+    }
+
+    /// Get a frozen main-chain block by hash.
+    fn get_frozen_block_by_hash(&self, hash: &packed::Byte32) -> Option<packed::Block> {
+        self.freezer()?;
+        let header = self.get_block_header(hash)?;
+        self.get_frozen_block(hash, &header)
+    }
+
     /// Get block body by block header hash
     fn get_block_body(&self, hash: &packed::Byte32) -> Vec<TransactionView> {
         let prefix = hash.as_slice();
-        self.get_iter(
-            COLUMN_BLOCK_BODY,
-            IteratorMode::From(prefix, Direction::Forward),
-        )
-        .take_while(|(key, _)| key.starts_with(prefix))
-        .map(|(_key, value)| {
-            let reader = packed::TransactionViewReader::from_slice_should_be_ok(value.as_ref());
-            Into::<TransactionView>::into(reader)
-        })
-        .collect()
+        let body: Vec<TransactionView> = self
+            .get_iter(
+                COLUMN_BLOCK_BODY,
+                IteratorMode::From(prefix, Direction::Forward),
+            )
+            .take_while(|(key, _)| key.starts_with(prefix))
+            .map(|(_key, value)| {
+                let reader = packed::TransactionViewReader::from_slice_should_be_ok(value.as_ref());
+                Into::<TransactionView>::into(reader)
+            })
+            .collect();
+        if body.is_empty()
+            && let Some(block) = self.get_frozen_block_by_hash(hash)
+        {
+            return block
+                .transactions()
+                .into_iter()
+                .map(|tx| tx.into_view())
+                .collect();
+        }
+        body
     }
 
     /// Get unfrozen block from ky-store with given hash
@@ -162,6 +201,19 @@ pub trait ChainStore: Send + Sync + Sized {
                 reader.hash().to_entity()
             })
             .collect();
+        let ret = if ret.is_empty() {
+            self.get_frozen_block_by_hash(hash)
+                .map(|block| {
+                    block
+                        .transactions()
+                        .into_iter()
+                        .map(|tx| tx.calc_tx_hash())
+                        .collect()
+                })
+                .unwrap_or(ret)
+        } else {
+            ret
+        };
 
         if let Some(cache) = self.cache() {
             cache.block_tx_hashes.lock().put(hash.clone(), ret.clone());
@@ -186,6 +238,10 @@ pub trait ChainStore: Send + Sync + Sized {
             .map(|slice| {
                 packed::ProposalShortIdVecReader::from_slice_should_be_ok(slice.as_ref())
                     .to_entity()
+            })
+            .or_else(|| {
+                self.get_frozen_block_by_hash(hash)
+                    .map(|block| block.proposals())
             });
 
         if let Some(cache) = self.cache() {
@@ -205,10 +261,17 @@ pub trait ChainStore: Send + Sync + Sized {
             return Some(data.clone());
         };
 
-        let ret = self.get(COLUMN_BLOCK_UNCLE, hash.as_slice()).map(|slice| {
-            let reader = packed::UncleBlockVecViewReader::from_slice_should_be_ok(slice.as_ref());
-            Into::<UncleBlockVecView>::into(reader)
-        });
+        let ret = self
+            .get(COLUMN_BLOCK_UNCLE, hash.as_slice())
+            .map(|slice| {
+                let reader =
+                    packed::UncleBlockVecViewReader::from_slice_should_be_ok(slice.as_ref());
+                Into::<UncleBlockVecView>::into(reader)
+            })
+            .or_else(|| {
+                self.get_frozen_block_by_hash(hash)
+                    .map(|block| block.into_view().uncles())
+            });
 
         if let Some(cache) = self.cache() {
             ret.inspect(|uncles| {
@@ -229,7 +292,11 @@ pub trait ChainStore: Send + Sync + Sized {
 
         let ret = self
             .get(COLUMN_BLOCK_EXTENSION, hash.as_slice())
-            .map(|slice| packed::BytesReader::from_slice_should_be_ok(slice.as_ref()).to_entity());
+            .map(|slice| packed::BytesReader::from_slice_should_be_ok(slice.as_ref()).to_entity())
+            .or_else(|| {
+                self.get_frozen_block_by_hash(hash)
+                    .and_then(|block| block.extension())
+            });
 
         if let Some(cache) = self.cache() {
             cache.block_extensions.lock().put(hash.clone(), ret.clone());
@@ -462,10 +529,16 @@ pub trait ChainStore: Send + Sync + Sized {
         let key = packed::TransactionKey::new_builder()
             .block_hash(hash.to_owned())
             .build();
-        self.get(COLUMN_BLOCK_BODY, key.as_slice()).map(|slice| {
-            let reader = packed::TransactionViewReader::from_slice_should_be_ok(slice.as_ref());
-            Into::<TransactionView>::into(reader)
-        })
+        self.get(COLUMN_BLOCK_BODY, key.as_slice())
+            .map(|slice| {
+                let reader = packed::TransactionViewReader::from_slice_should_be_ok(slice.as_ref());
+                Into::<TransactionView>::into(reader)
+            })
+            .or_else(|| {
+                self.get_frozen_block_by_hash(hash)
+                    .and_then(|block| block.transactions().get(0))
+                    .map(|tx| tx.into_view())
+            })
     }
 
     /// Gets latest built filter data block hash
@@ -488,6 +561,9 @@ pub trait ChainStore: Send + Sync + Sized {
 
     /// Gets block bytes by block hash
     fn get_packed_block(&self, hash: &packed::Byte32) -> Option<packed::Block> {
+        if let Some(block) = self.get_frozen_block_by_hash(hash) {
+            return Some(block);
+        }
         let header = self
             .get(COLUMN_BLOCK_HEADER, hash.as_slice())
             .map(|slice| {
